@@ -61,6 +61,56 @@ def find_agg(e, name):
     return None
 
 
+def slice_nf(e, data):
+    """a sub-slice of `data` in normal form (lo, hi) with hi = None for "to the end": &data[lo..], &data[..hi], &data[lo..hi],
+    data.split_at(k).0 / .1, data itself; None if e is something else"""
+    e = strip_ref(e)
+    while e[0] in ('deref', 'ref'):
+        e = strip_ref(e[1])
+    if e == data:
+        return (C(0), None)
+    ix = index_from(e)
+    if ix is not None:
+        sub = slice_nf(ix[0], data)
+        if sub == (C(0), None):
+            return (ix[1], ix[2] if len(ix) == 3 else None)
+        return None
+    if e[0] == 'fld' and e[2] in ('0', '1') and e[1][0] == 'call' and (e[1][1] or '').endswith('::split_at') and len(e[1][2]) == 2 and \
+            slice_nf(e[1][2][0], data) == (C(0), None):
+        k = e[1][2][1]
+        return (C(0), k) if e[2] == '0' else (k, None)
+    return None
+
+
+def lin_len(e, data):
+    """a length expression over `data` as ({atom: coeff}, const): len(data), len(data) - k, len(&data[k..]), k2 - k ..."""
+    if e[0] == 'c' and isinstance(e[1], int):
+        return {}, e[1]
+    if e[0] == 'len':
+        nf = slice_nf(e[1], data)
+        if nf is None:
+            return {e: 1}, 0
+        lo, hi = nf
+        a = lin_len(hi, data) if hi is not None else ({('len', data): 1}, 0)
+        b_ = lin_len(lo, data)
+        out = dict(a[0])
+        for t_, v_ in b_[0].items():
+            out[t_] = out.get(t_, 0) - v_
+            if out[t_] == 0:
+                del out[t_]
+        return out, a[1] - b_[1]
+    if e[0] == 'bin' and e[1] in ('Add', 'Sub'):
+        a, b_ = lin_len(e[2], data), lin_len(e[3], data)
+        sg = 1 if e[1] == 'Add' else -1
+        out = dict(a[0])
+        for t_, v_ in b_[0].items():
+            out[t_] = out.get(t_, 0) + sg * v_
+            if out[t_] == 0:
+                del out[t_]
+        return out, a[1] + sg * b_[1]
+    return {e: 1}, 0
+
+
 def decode_fn(rep, f, c, fn, with_replacement):
     b = f.body(fn)
     if b is None:
@@ -113,12 +163,14 @@ def decode_fn(rep, f, c, fn, with_replacement):
             okd = len(nd) == 1 and strip_ref(nd[0][2][0]) == SELF
             dec = ('call', nd[0][1], nd[0][2], nd[0][3]) if nd else None
             V = v[2] if v else None
+            K = V if V is not None else C(0)        # how much of the input was validated (and is copied verbatim)
+            rest_len = lin_len(('bin', 'Sub', ('len', data), K), data)
             ext = [e for e in p.calls() if (e[1] or '').endswith('::extend_from_slice')]
             if V is not None:
-                ix = index_from(ext[0][2][1]) if len(ext) == 1 else None
-                okp = ix is not None and len(ix) == 3 and strip_ref(ix[0]) == data and ix[1] == C(0) and ix[2] == V
+                okp = len(ext) == 1 and slice_nf(ext[0][2][1], data) == (C(0), V)
             else:
-                okp = not ext
+                # nothing validated: no prefix copy, or the copy of an empty prefix
+                okp = not ext or (len(ext) == 1 and slice_nf(ext[0][2][1], data) == (C(0), C(0)))
             rep.ob('C11-D3.setup', fn, okd and okp, 'conversion path does not create new_decoder_without_bom_handling(self) and copy exactly bytes[..valid_up_to]', at, None, c)
             if not with_replacement and dec is not None:
                 dc = [e for e in p.calls() if e[1] == 'Decoder::decode_to_string_without_replacement']
@@ -126,11 +178,7 @@ def decode_fn(rep, f, c, fn, with_replacement):
                 if ok:
                     a = dc[0][2]
                     inp = a[1]
-                    if V is not None:
-                        ix = index_from(inp)
-                        ok &= ix is not None and len(ix) == 2 and strip_ref(ix[0]) == data and ix[1] == V
-                    else:
-                        ok &= strip_ref(inp) == data
+                    ok &= slice_nf(inp, data) == (K, None)
                     ok &= strip_ref(a[0]) == dec and a[3] == ('c', 1, 'bool')
                     res = ('call', dc[0][1], a, dc[0][3])
                     arm = [e for e in p.conds() if e[1][0] == 'variant' and e[1][1] == tuple_field(res, 0)]
@@ -153,11 +201,13 @@ def decode_fn(rep, f, c, fn, with_replacement):
                     un = cap if cap[0] == 'call' and (cap[1] or '').endswith('::unwrap') else None
                     inner = un[2][0] if un else None
                     want_q = 'Decoder::max_utf8_buffer_length_without_replacement'
-                    if V is not None:
-                        okc = inner is not None and inner[0] == 'call' and inner[1] == 'checked_add' and inner[2][0] == V and inner[2][1][0] == 'call' and inner[2][1][1] == want_q \
-                            and strip_ref(inner[2][1][2][0]) == dec and inner[2][1][2][1] == ('bin', 'Sub', ('len', data), V)
-                    else:
-                        okc = inner is not None and inner[0] == 'call' and inner[1] == want_q and strip_ref(inner[2][0]) == dec and inner[2][1] == ('len', data)
+                    # capacity = K + query(len - K); with K = 0 the addition may be absent
+                    q_ = None
+                    if inner is not None and inner[0] == 'call' and inner[1] == 'checked_add' and inner[2][0] == K:
+                        q_ = inner[2][1]
+                    elif inner is not None and K == C(0):
+                        q_ = inner
+                    okc = q_ is not None and q_[0] == 'call' and q_[1] == want_q and strip_ref(q_[2][0]) == dec and lin_len(q_[2][1], data) == rest_len
                 rep.ob('C11-D4', fn, okc, 'the String capacity that makes OutputFull unreachable is not valid_up_to + decoder.max_utf8_buffer_length_without_replacement(len - valid_up_to) '
                        'on the decoder that performs the conversion', at, None, c)
     rep.ob('C11-D1.cases', fn, nborrow >= (2 if not with_replacement else 1) and nown >= 2, 'borrow/convert paths missing (%d/%d)' % (nborrow, nown), site, {'borrow_paths': nborrow, 'convert_paths': nown}, c)
